@@ -90,7 +90,7 @@ TParentCkpt == IsEv("ParentCkpt") /\ MainParentCkpt /\ H3 /\ H4 /\ H5 /\ Consume
 
 SilentStep ==
   /\ l <= Len(Tr)
-  /\ \/ ((MainSubmit \/ MainWake \/ MainCancel) /\ H3 /\ H4 /\ H5)
+  /\ \/ ((MainSubmit \/ MainWake \/ MainCancel \/ MainParentMark) /\ H3 /\ H4 /\ H5)
      \* the refresh checkpoint of the timer thread returns (a failing one sets the completion event: observed as EvSet)
      \/ (TimerRefreshed(TRUE) /\ H3 /\ H4 /\ UNCHANGED <<tphAtSusp, stale>>)
      \/ (TimerRefreshed(FALSE) /\ H3 /\ H4 /\ UNCHANGED <<tphAtSusp, stale>> /\ event' = event)
@@ -100,6 +100,7 @@ SilentStep ==
               /\ ~(i \in chk /\ i \notin chk'))
           \* done-callback steps that do not set the completion event for the first time
           \/ (CbWrite(i) /\ CbSnapW(i) /\ H4 /\ H5 /\ event' = event)
+          \/ (CbCount(i) /\ H3 /\ H4 /\ H5)
           \/ (CbDecide(i) /\ H3 /\ H4 /\ H5 /\ event' = event)
           \/ (CbScan(i) /\ CbSnapS(i) /\ H4 /\ H5 /\ event' = event)
   /\ Silent
